@@ -1,6 +1,7 @@
 package main
 
 import (
+	"go/constant"
 	"fmt"
 	"go/types"
 	"math/big"
@@ -111,7 +112,7 @@ func (s *State) doCall(call *ssa.Call, cc *ssa.CallCommon) ([]*State, bool) {
 	if isNoopCall(name) {
 		c.assume("A-LOG: logging/metrics/tracing/lock calls are no-ops")
 		s.bindFreshResult(call, "noop")
-		s.runGhost(fr, fmt.Sprintf("after %s#%d", anchorName, occ))
+		s.runGhostAfter(fr, call, fmt.Sprintf("after %s#%d", anchorName, occ))
 		return nil, false
 	}
 	var fn *ssa.Function
@@ -127,13 +128,13 @@ func (s *State) doCall(call *ssa.Call, cc *ssa.CallCommon) ([]*State, bool) {
 			s.safety("safe-nil", call, fmt.Sprintf("(not (= (i.tag %s) 0))", recv))
 			sig := cc.Method.Type().(*types.Signature)
 			s.contractCall(call, sp, nil, sig, args, name, occ, true)
-			s.runGhost(fr, fmt.Sprintf("after %s#%d", anchorName, occ))
+			s.runGhostAfter(fr, call, fmt.Sprintf("after %s#%d", anchorName, occ))
 			return nil, false
 		}
 		// known implementations?
 		s.safety("safe-nil", call, fmt.Sprintf("(not (= (i.tag %s) 0))", recv))
 		s.unknownCall(call, name, cc.Signature())
-		s.runGhost(fr, fmt.Sprintf("after %s#%d", anchorName, occ))
+		s.runGhostAfter(fr, call, fmt.Sprintf("after %s#%d", anchorName, occ))
 		return nil, false
 	}
 	switch v := s.get(cc.Value).(type) {
@@ -155,7 +156,7 @@ func (s *State) doCall(call *ssa.Call, cc *ssa.CallCommon) ([]*State, bool) {
 				s.dynFnValue = t
 			}
 			s.contractCall(call, sp, nil, cc.Signature(), args, name, occ, false)
-			s.runGhost(fr, fmt.Sprintf("after %s#%d", anchorName, occ))
+			s.runGhostAfter(fr, call, fmt.Sprintf("after %s#%d", anchorName, occ))
 			return nil, false
 		}
 		if spn, ok := c.Spec.CallSpecs[cc.Value.Name()]; ok {
@@ -185,6 +186,12 @@ func (s *State) doCall(call *ssa.Call, cc *ssa.CallCommon) ([]*State, bool) {
 			return nil, false
 		}
 	}
+	if key == "fmt::Errorf" {
+		if s.fmtErrorf(call, cc, args) {
+			s.runGhostAfter(fr, call, fmt.Sprintf("after %s#%d", anchorName, occ))
+			return nil, false
+		}
+	}
 	if key == "sort::Slice" || key == "sort::SliceStable" {
 		if s.sortSlice(call, cc, args) {
 			return nil, false
@@ -192,7 +199,7 @@ func (s *State) doCall(call *ssa.Call, cc *ssa.CallCommon) ([]*State, bool) {
 	}
 	if sp := c.SS.specFor(fn); sp != nil && (sp.HasBody || sp.Trusted) && !sp.Inline {
 		s.contractCall(call, sp, fn, fn.Signature, args, key, occ, false)
-		s.runGhost(fr, fmt.Sprintf("after %s#%d", anchorName, occ))
+		s.runGhostAfter(fr, call, fmt.Sprintf("after %s#%d", anchorName, occ))
 		return nil, false
 	}
 	if len(fn.Blocks) > 0 && fr.Depth < 8 && c.inlinable(fn) && (c.loopInfo(fn) == nil || len(c.loopInfo(fn).loops) == 0) && !c.isRecursive(fn, fr) {
@@ -1167,4 +1174,97 @@ func short0(name string) string {
 		return name[j+2:]
 	}
 	return name
+}
+
+// runGhostAfter runs the ghost statements anchored after a call; they see the call's results as ret (single result)
+// or ret0, ret1, ...
+func (s *State) runGhostAfter(fr *Frame, call *ssa.Call, anchor string) {
+	if fr.Spec == nil || fr.Caller != nil {
+		return
+	}
+	extra := map[string]TV{}
+	if v, ok := fr.Vals[call]; ok && v != nil {
+		if tup, ok := call.Type().(*types.Tuple); ok {
+			if tv, ok := v.(*Tuple); ok {
+				for i := 0; i < tup.Len() && i < len(tv.Vals); i++ {
+					extra[fmt.Sprintf("ret%d", i)] = s.valueTV(tv.Vals[i], tup.At(i).Type())
+				}
+			}
+		} else {
+			t := s.valueTV(v, call.Type())
+			extra["ret"] = t
+			extra["ret0"] = t
+		}
+	}
+	s.ghostExtra = extra
+	s.runGhost(fr, anchor)
+	s.ghostExtra = nil
+}
+
+// wVerbArgs: the operand indexes of the %w verbs of a constant format string; ok=false when the format uses explicit
+// argument indexes or * widths (operand numbering then needs more than counting verbs).
+func wVerbArgs(format string) (ws []int, ok bool) {
+	arg := 0
+	for i := 0; i < len(format); i++ {
+		if format[i] != '%' {
+			continue
+		}
+		i++
+		if i >= len(format) {
+			break
+		}
+		if format[i] == '%' {
+			continue
+		}
+		for i < len(format) && strings.IndexByte("+-# 0123456789.", format[i]) >= 0 {
+			i++
+		}
+		if i >= len(format) {
+			break
+		}
+		if format[i] == '[' || format[i] == '*' {
+			return nil, false
+		}
+		if format[i] == 'w' {
+			ws = append(ws, arg)
+		}
+		arg++
+	}
+	return ws, true
+}
+
+// fmtErrorf: fmt.Errorf with a constant format. The result is a new non-nil error that wraps exactly itself and what
+// its %w operands wrap (err.wraps is what errors.Is answers; A-LIB).
+func (s *State) fmtErrorf(call *ssa.Call, cc *ssa.CallCommon, args []Value) bool {
+	c := s.C
+	k, ok := cc.Args[0].(*ssa.Const)
+	if !ok || k.Value == nil || k.Value.Kind() != constant.String {
+		return false
+	}
+	ws, ok := wVerbArgs(constant.StringVal(k.Value))
+	if !ok || len(args) < 2 {
+		return false
+	}
+	st, ok := c.under(cc.Args[1].Type()).(*types.Slice)
+	if !ok {
+		return false
+	}
+	va, ok := args[1].(string)
+	if !ok {
+		return false
+	}
+	c.usesErrWraps = true
+	c.assume("A-LIB: fmt.Errorf returns a new non-nil error that wraps (errors.Is) itself and exactly what its %w operands wrap")
+	r := s.freshConst("errorf", "Iface")
+	s.assert(fmt.Sprintf("(not (= (i.tag %s) 0))", r))
+	cn, cs := c.elemComp(st.Elem())
+	E := s.comp(cn, cs)
+	parts := []string{fmt.Sprintf("(= t!w %s)", r)}
+	for _, w := range ws {
+		a := s.name("errarg", "Iface", fmt.Sprintf("(select (select %s (s.base %s)) (idx (s.off %s) %d))", E, va, va, w))
+		parts = append(parts, fmt.Sprintf("(and (not (= (i.tag %s) 0)) (err.wraps %s t!w))", a, a))
+	}
+	s.assert(fmt.Sprintf("(forall ((t!w Iface)) (! (= (err.wraps %s t!w) (or %s)) :pattern ((err.wraps %s t!w))))", r, strings.Join(parts, " "), r))
+	s.Frame.Vals[call] = r
+	return true
 }
